@@ -2538,6 +2538,19 @@ func (c S3ApiController) PutActions(ctx *fiber.Ctx) error {
 				})
 		}
 
+		// a copy replaces the destination object exactly like PutObject does:
+		// consult the object lock of the destination key before writing
+		err = auth.CheckObjectAccess(ctx.Context(), bucket, acct.Access, []types.ObjectIdentifier{{Key: &keyStart}}, true, c.be)
+		if err != nil {
+			return SendXMLResponse(ctx, nil, err,
+				&MetaOpts{
+					Logger:      c.logger,
+					MetricsMng:  c.mm,
+					Action:      metrics.ActionCopyObject,
+					BucketOwner: parsedAcl.Owner,
+				})
+		}
+
 		objLock, err := utils.ParsObjectLockHdrs(ctx, c.debug)
 		if err != nil {
 			return SendResponse(ctx, err,
